@@ -231,7 +231,7 @@ pub fn is_valid_date(year: i32, month: u8, day: u8) -> bool {
   }
   if year >= -999_999_999 && year <= 999_999_999 {
     if let Some(last_day_of_month) = last_day_of_month(year, month) {
-      return day <= last_day_of_month;
+      return day >= 1 && day <= last_day_of_month;
     }
   }
   false
